@@ -17,6 +17,7 @@ import (
 	"net"
 	"os"
 	"strings"
+	"sync"
 	"sync/atomic"
 	"time"
 
@@ -61,7 +62,39 @@ func finish(id, scenario, key string, nontrivial bool, events int64, r *res, det
 		c.Verdict = hk.Held
 	}
 	totalEvents.Add(events)
+	if c.Verdict == hk.Violated {
+		// the driver keeps replay files for the first 50 violations only: emit violations at the end,
+		// round-robin over the signatures, so that every signature gets witnesses on file
+		pendMu.Lock()
+		if _, seen := pending[c.Sig]; !seen {
+			pendOrder = append(pendOrder, c.Sig)
+		}
+		pending[c.Sig] = append(pending[c.Sig], c)
+		pendMu.Unlock()
+		return
+	}
 	hk.Emit(c)
+}
+
+var (
+	pendMu    sync.Mutex
+	pending   = map[string][]hk.Case{}
+	pendOrder []string
+)
+
+func flushViolations() {
+	pendMu.Lock()
+	defer pendMu.Unlock()
+	for more := true; more; {
+		more = false
+		for _, sig := range pendOrder {
+			if l := pending[sig]; len(l) > 0 {
+				hk.Emit(l[0])
+				pending[sig] = l[1:]
+				more = true
+			}
+		}
+	}
 }
 
 // fence returns once the acceptor listening on port has completely processed every TCP
@@ -133,6 +166,7 @@ func main() {
 		hk.Note("wall_perms_s", time.Since(t2).Seconds())
 	}
 
+	flushViolations()
 	h, _ := hk.PointStats()
 	hk.Note("hook_hits", h)
 	os.Stdout.Sync()
